@@ -19,6 +19,7 @@ type fx struct {
 	binds   map[int]bool           // summaries: ... through its i-th free variable
 	unknown bool
 	ghost   bool
+	deps    bool // may call a caller-supplied dependency (signer, filesystem, reader): relevant for fault mode
 
 	fn         *ssa.Function
 	region     map[*ssa.BasicBlock]bool // nil: whole function
@@ -50,6 +51,18 @@ var extWrites = map[string][]int{
 	"io.MultiReader":             {0},
 	"encoding/pem.Encode":        {0},
 	"(*golang.org/x/text/transform.Writer).Write": {0},
+}
+
+// streamArgs: which arguments of a stream helper are readers/writers
+var streamArgs = map[string][]int{
+	"encoding/binary.Read":     {0},
+	"encoding/binary.Write":    {0},
+	"io.Copy":                  {0, 1},
+	"io.CopyN":                 {0, 1},
+	"io.ReadAll":               {0},
+	"(*bytes.Buffer).ReadFrom": {1},
+	"io.NewSectionReader":      {0},
+	"debug/pe.NewFile":         {0},
 }
 
 var streamSorts = []string{"T_bytes_Buffer", "T_bytes_Reader", "T_io_SectionReader"}
@@ -221,6 +234,7 @@ func (x *Exec) applySummary(f *fx, sub *fx, args []ssa.Value, binds []ssa.Value)
 	}
 	f.unknown = f.unknown || sub.unknown
 	f.ghost = f.ghost || sub.ghost
+	f.deps = f.deps || sub.deps
 	for i := range sub.params {
 		if i >= 0 && i < len(args) {
 			x.classifyWrite(f, args[i])
@@ -250,6 +264,7 @@ func (x *Exec) callFx(f *fx, cc *ssa.CallCommon, visiting map[*ssa.Function]bool
 			}
 		case "ReadAt":
 			f.ghost = true
+			f.deps = true
 			if len(cc.Args) > 0 {
 				x.classifyWrite(f, cc.Args[0])
 			}
@@ -257,6 +272,7 @@ func (x *Exec) callFx(f *fx, cc *ssa.CallCommon, visiting map[*ssa.Function]bool
 		}
 		if _, ok := ifaceMethods[cc.Method.Name()]; ok {
 			f.ghost = true
+			f.deps = true
 			x.classifyWrite(f, cc.Value)
 			for _, a := range cc.Args {
 				if _, isSl := a.Type().Underlying().(*types.Slice); !isSl {
@@ -266,6 +282,7 @@ func (x *Exec) callFx(f *fx, cc *ssa.CallCommon, visiting map[*ssa.Function]bool
 			return
 		}
 		f.unknown = true
+		f.deps = true
 		return
 	}
 	callee := cc.StaticCallee()
@@ -304,6 +321,31 @@ func (x *Exec) callFx(f *fx, cc *ssa.CallCommon, visiting map[*ssa.Function]bool
 	}
 	if _, ok := externs[name]; ok {
 		f.ghost = true
+		// stream helpers reach a caller-supplied dependency when handed one
+		for _, i := range streamArgs[name] {
+			if i >= len(cc.Args) {
+				continue
+			}
+			a := cc.Args[i]
+			if mi, ok := a.(*ssa.MakeInterface); ok {
+				if pt, ok := mi.X.Type().Underlying().(*types.Pointer); ok {
+					g := ghostFor(pt.Elem())
+					if g == "bytes.Buffer" || g == "bytes.Reader" {
+						continue
+					}
+				}
+			}
+			if pt, ok := a.Type().Underlying().(*types.Pointer); ok {
+				g := ghostFor(pt.Elem())
+				if g == "bytes.Buffer" || g == "bytes.Reader" {
+					continue
+				}
+			}
+			f.deps = true
+		}
+		if name == "(*io.SectionReader).Read" || name == "(*io.SectionReader).ReadAt" {
+			f.deps = true
+		}
 		for _, i := range extWrites[name] {
 			if i < len(cc.Args) {
 				if name == "encoding/binary.Read" && i == 2 {
@@ -331,6 +373,7 @@ func (x *Exec) callFx(f *fx, cc *ssa.CallCommon, visiting map[*ssa.Function]bool
 	}
 	if !repoFunc(callee) {
 		f.unknown = true
+		f.deps = true
 		return
 	}
 	if c := x.contracts[fnName(callee)]; c != nil && !c.Inline {
